@@ -1,6 +1,9 @@
-use std::fmt::{Error, Result as FmtResult, Write};
+use std::{
+    collections::HashSet,
+    fmt::{Error, Result as FmtResult, Write},
+};
 
-use async_graphql_value::ConstValue;
+use async_graphql_value::{ConstValue, Value};
 
 use crate::{
     Variables,
@@ -17,6 +20,8 @@ impl Registry {
         doc: &ExecutableDocument,
     ) -> Result<String, Error> {
         let mut output = String::new();
+        // the variables that the fragments use for a secret argument or input field
+        let mut fragment_secret_variables = HashSet::new();
         for (name, fragment) in &doc.fragments {
             self.stringify_fragment_definition(
                 &mut output,
@@ -25,9 +30,32 @@ impl Registry {
                 self.types
                     .get(fragment.node.type_condition.node.on.node.as_str()),
                 &fragment.node,
+                &mut fragment_secret_variables,
             )?;
         }
         for (name, operation_definition) in doc.operations.iter() {
+            // the selection set goes first, it tells which variables are secret
+            let mut secret_variables = fragment_secret_variables.clone();
+            let mut selection_set = String::new();
+            let root_type = match operation_definition.node.ty {
+                OperationType::Query => self.types.get(&self.query_type),
+                OperationType::Mutation => self
+                    .mutation_type
+                    .as_ref()
+                    .and_then(|name| self.types.get(name)),
+                OperationType::Subscription => self
+                    .subscription_type
+                    .as_ref()
+                    .and_then(|name| self.types.get(name)),
+            };
+            self.stringify_selection_set(
+                &mut selection_set,
+                variables,
+                &operation_definition.node.selection_set.node,
+                root_type,
+                &mut secret_variables,
+            )?;
+
             write!(&mut output, "{} ", operation_definition.node.ty)?;
             if let Some(name) = name {
                 write!(&mut output, "{}", name)?;
@@ -50,7 +78,18 @@ impl Registry {
                             variable_definition.node.var_type.node
                         )?;
                         if let Some(default_value) = &variable_definition.node.default_value {
-                            write!(output, " = {}", default_value.node)?;
+                            output.push_str(" = ");
+                            if secret_variables
+                                .contains(variable_definition.node.name.node.as_str())
+                            {
+                                output.push_str("\"<secret>\"");
+                            } else {
+                                self.stringify_value_of_type(
+                                    &mut output,
+                                    Some(&variable_definition.node.var_type.node.to_string()),
+                                    &default_value.node,
+                                )?;
+                            }
                         }
                     }
                     output.push(')');
@@ -58,34 +97,19 @@ impl Registry {
 
                 output.push(' ');
             }
-            let root_type = match operation_definition.node.ty {
-                OperationType::Query => self.types.get(&self.query_type),
-                OperationType::Mutation => self
-                    .mutation_type
-                    .as_ref()
-                    .and_then(|name| self.types.get(name)),
-                OperationType::Subscription => self
-                    .subscription_type
-                    .as_ref()
-                    .and_then(|name| self.types.get(name)),
-            };
-            self.stringify_selection_set(
-                &mut output,
-                variables,
-                &operation_definition.node.selection_set.node,
-                root_type,
-            )?;
+            output.push_str(&selection_set);
         }
         Ok(output)
     }
 
-    fn stringify_fragment_definition(
+    fn stringify_fragment_definition<'a>(
         &self,
         output: &mut String,
         variables: &Variables,
         name: &str,
         parent_type: Option<&MetaType>,
-        fragment_definition: &FragmentDefinition,
+        fragment_definition: &'a FragmentDefinition,
+        secret_variables: &mut HashSet<&'a str>,
     ) -> FmtResult {
         write!(
             output,
@@ -97,6 +121,7 @@ impl Registry {
             variables,
             &fragment_definition.selection_set.node,
             parent_type,
+            secret_variables,
         )?;
         output.push_str("}\n\n");
         Ok(())
@@ -113,12 +138,19 @@ impl Registry {
             return Ok(());
         }
 
+        self.stringify_value_of_type(output, meta_input_value.map(|v| v.ty.as_str()), value)
+    }
+
+    fn stringify_value_of_type(
+        &self,
+        output: &mut String,
+        ty: Option<&str>,
+        value: &ConstValue,
+    ) -> FmtResult {
         match value {
             ConstValue::Object(obj) => {
-                let parent_type = meta_input_value.and_then(|input_value| {
-                    self.types
-                        .get(MetaTypeName::concrete_typename(&input_value.ty))
-                });
+                let parent_type =
+                    ty.and_then(|ty| self.types.get(MetaTypeName::concrete_typename(ty)));
                 if let Some(MetaType::InputObject { input_fields, .. }) = parent_type {
                     output.push('{');
                     for (idx, (key, value)) in obj.iter().enumerate() {
@@ -139,7 +171,7 @@ impl Registry {
                     if idx > 0 {
                         output.push_str(", ");
                     }
-                    self.stringify_input_value(output, meta_input_value, item)?;
+                    self.stringify_value_of_type(output, ty, item)?;
                 }
                 output.push(']');
             }
@@ -149,12 +181,66 @@ impl Registry {
         Ok(())
     }
 
-    fn stringify_selection_set(
+    /// Adds the variables that `value` uses for a secret argument or input
+    /// field to `secret_variables`.
+    fn collect_secret_variables<'a>(
+        &self,
+        meta_input_value: Option<&MetaInputValue>,
+        value: &'a Value,
+        secret_variables: &mut HashSet<&'a str>,
+    ) {
+        fn collect_variables<'a>(value: &'a Value, variables: &mut HashSet<&'a str>) {
+            match value {
+                Value::Variable(name) => {
+                    variables.insert(name.as_str());
+                }
+                Value::List(items) => items
+                    .iter()
+                    .for_each(|item| collect_variables(item, variables)),
+                Value::Object(obj) => obj
+                    .values()
+                    .for_each(|value| collect_variables(value, variables)),
+                _ => {}
+            }
+        }
+
+        if meta_input_value.map(|v| v.is_secret).unwrap_or_default() {
+            collect_variables(value, secret_variables);
+            return;
+        }
+
+        match value {
+            Value::Object(obj) => {
+                let parent_type = meta_input_value.and_then(|input_value| {
+                    self.types
+                        .get(MetaTypeName::concrete_typename(&input_value.ty))
+                });
+                if let Some(MetaType::InputObject { input_fields, .. }) = parent_type {
+                    for (key, value) in obj {
+                        self.collect_secret_variables(
+                            input_fields.get(key.as_str()),
+                            value,
+                            secret_variables,
+                        );
+                    }
+                }
+            }
+            Value::List(items) => {
+                for item in items {
+                    self.collect_secret_variables(meta_input_value, item, secret_variables);
+                }
+            }
+            _ => {}
+        }
+    }
+
+    fn stringify_selection_set<'a>(
         &self,
         output: &mut String,
         variables: &Variables,
-        selection_set: &SelectionSet,
+        selection_set: &'a SelectionSet,
         parent_type: Option<&MetaType>,
+        secret_variables: &mut HashSet<&'a str>,
     ) -> FmtResult {
         output.push_str("{ ");
         for (idx, selection) in selection_set.items.iter().map(|s| &s.node).enumerate() {
@@ -179,6 +265,11 @@ impl Registry {
                                 output.push_str(", ");
                             }
                             write!(output, "{}: ", name)?;
+                            self.collect_secret_variables(
+                                meta_input_value,
+                                &argument.node,
+                                secret_variables,
+                            );
                             let value = argument
                                 .node
                                 .clone()
@@ -200,6 +291,7 @@ impl Registry {
                             variables,
                             &field.node.selection_set.node,
                             parent_type,
+                            secret_variables,
                         )?;
                     }
                 }
@@ -219,6 +311,7 @@ impl Registry {
                         variables,
                         &inline_fragment.node.selection_set.node,
                         parent_type,
+                        secret_variables,
                     )?;
                 }
             }
@@ -322,6 +415,57 @@ mod tests {
         assert_eq!(
             s,
             r#"query { value(a: 10, b: "<secret>", c: {v1: 1, v2: "<secret>", v3: {v4: 4, v5: "<secret>"}}) }"#
+        );
+    }
+
+    #[test]
+    fn test_stringify_secret_variable_default() {
+        #[derive(InputObject)]
+        #[graphql(internal)]
+        struct MyInput {
+            v1: i32,
+            #[graphql(secret)]
+            v2: i32,
+        }
+
+        struct Query;
+
+        #[Object(internal)]
+        #[allow(unreachable_code, unused_variables)]
+        impl Query {
+            async fn value(&self, a: i32, #[graphql(secret)] b: i32, c: MyInput) -> i32 {
+                todo!()
+            }
+        }
+
+        let schema = Schema::new(Query, EmptyMutation, EmptySubscription);
+        let registry = schema.registry();
+        let variables = Variables::from_value(value!({
+            "a": 10, "b": 20, "c": { "v1": 1, "v2": 2 }, "d": 3,
+        }));
+
+        // the default value of a variable is as secret as the positions it is used in
+        let doc = parse_query(
+            r#"
+            query Abc($a: Int = 11, $b: Int = 21, $c: MyInput = { v1: 1, v2: 2 }, $d: Int = 31) {
+                value(a: $a, b: $b, c: $c)
+                ... F
+            }
+
+            fragment F on Query {
+                other: value(a: 1, b: 2, c: { v1: $a, v2: $d })
+            }
+        "#,
+        )
+        .unwrap();
+        assert_eq!(
+            registry.stringify_exec_doc(&variables, &doc).unwrap(),
+            concat!(
+                r#"fragment F on Query{ other:value(a: 1, b: "<secret>", c: {v1: 10, v2: "<secret>"}) }}"#,
+                "\n\n",
+                r#"query Abc($a: Int = 11, $b: Int = "<secret>", $c: MyInput = {v1: 1, v2: "<secret>"}, $d: Int = "<secret>") "#,
+                r#"{ value(a: 10, b: "<secret>", c: {v1: 1, v2: "<secret>"}) ... F }"#,
+            )
         );
     }
 }
